@@ -71,6 +71,25 @@ _duration_re = re.compile(
     )
 
 
+def _is_number_text(string):
+    """int(), float() and Decimal() also read underscores between digits and
+    the digits of other scripts, which no number type of Xml Schema has in its
+    lexical space."""
+
+    if isinstance(string, six.binary_type):
+        return b'_' not in string
+
+    if u'_' in string:
+        return False
+
+    try:
+        string.encode('ascii')
+    except UnicodeError:
+        return False
+
+    return True
+
+
 class InProtocolBase(ProtocolMixin):
     """This is the abstract base class for all input protocol implementations.
     Child classes can implement only the required subset of the public methods.
@@ -396,6 +415,10 @@ class InProtocolBase(ProtocolMixin):
             raise ValidationError(string, "Decimal %%r longer than %d "
                                           "characters" % cls_attrs.max_str_len)
 
+        if isinstance(string, six.string_types) and \
+                                                 not _is_number_text(string):
+            raise ValidationError(string, "%r is not a decimal")
+
         try:
             value = D(string)
         except (InvalidOperation, TypeError, ValueError) as e:
@@ -414,6 +437,10 @@ class InProtocolBase(ProtocolMixin):
                                     string.decode(self.default_string_encoding))
 
     def double_from_bytes(self, cls, string):
+        if isinstance(string, (six.text_type, six.binary_type)) and \
+                                                 not _is_number_text(string):
+            raise ValidationError(string, "%r is not a double")
+
         try:
             return float(string)
         except (TypeError, ValueError) as e:
@@ -428,6 +455,10 @@ class InProtocolBase(ProtocolMixin):
             raise ValidationError(string,
                                          "Integer %%r longer than %d characters"
                                                         % cls_attrs.max_str_len)
+
+        if isinstance(string, (six.text_type, six.binary_type)) and \
+                                                 not _is_number_text(string):
+            raise ValidationError(string, "Could not cast %r to integer")
 
         try:
             return int(string)
